@@ -155,14 +155,14 @@ class Program:
 
     def is_helper(self, g):
         """a function whose body is read as part of its callers (expanded in place): a unit-private
-        free function (internal linkage), or a private non-virtual method that did not exist when
-        the rule tables were frozen (sa/rules/known_private.json lists the private methods of the
+        free function (internal linkage), or a private / protected non-virtual method that did not exist when
+        the rule tables were frozen (sa/rules/known_private.json lists the non-public methods of the
         confirmed tree: those are protocol steps with their own inventory, not helpers)"""
         if g is None or not g.get('body') or g.get('va'):
             return False
         if g.get('internal'):
             return True
-        if g.get('kind') == 'method' and g.get('access') == 'private' and not g.get('virt'):
+        if g.get('kind') == 'method' and g.get('access') in ('private', 'protected') and not g.get('virt'):
             if self._known_private is None:
                 p = os.path.join(VERIF, 'sa', 'rules', 'known_private.json')
                 self._known_private = set(json.load(open(p))) if os.path.exists(p) else set()
@@ -238,8 +238,23 @@ class Program:
         return seen
 
     def callers_of(self, key):
+        """functions whose analysis contains the call sites of `key`: a helper that is expanded into
+        its callers is replaced by those callers"""
         cg = self.callgraph()
-        return [k for k, outs in cg.items() if key in outs]
+        out = []
+        seen = set()
+        work = [k for k, outs in cg.items() if key in outs]
+        while work:
+            k = work.pop()
+            if k in seen:
+                continue
+            seen.add(k)
+            g = self.funcs.get(k)
+            if g is not None and self.is_helper(g):
+                work.extend(k2 for k2, outs in cg.items() if k in outs)
+            else:
+                out.append(k)
+        return out
 
 
 def walk(node):
